@@ -183,3 +183,35 @@ func RSAEncPEM(i int) []byte {
 	}
 	return []byte(rsaEncPEM0)
 }
+
+// EdTag returns the two Ed25519 fixtures whose 32-bit recipient tags collide (which = 0 or 1).
+func EdTag(which int) *Key {
+	i := EdTagCollisionA
+	if which == 1 {
+		i = EdTagCollisionB
+	}
+	name := fmt.Sprintf("ET%d", which)
+	if k, ok := cache[name]; ok {
+		return k
+	}
+	h := sha256.Sum256([]byte(fmt.Sprintf("verif-key-ed25519tag-%d", i)))
+	seed := h[:]
+	priv := ed25519.NewKeyFromSeed(seed)
+	pub := priv.Public().(ed25519.PublicKey)
+	id, err := agessh.NewEd25519Identity(priv)
+	if err != nil {
+		panic(err)
+	}
+	spk, _ := ssh.NewPublicKey(pub)
+	r, err := agessh.NewEd25519Recipient(spk)
+	if err != nil {
+		panic(err)
+	}
+	k := &Key{Kind: "E", Name: name, Rcpt: r, Id: id, EdSeed: seed, EdPub: []byte(pub), SSHPub: spk}
+	k.Ref = func(s refage.Stanza) ([]byte, error) { return refage.UnwrapSSHEd25519(s, seed, []byte(pub)) }
+	cache[name] = k
+	return k
+}
+
+// EdTagEncPEMB is the passphrase-protected key file of the second colliding key.
+func EdTagEncPEMB() []byte { return []byte(edTagCollisionEncPEMB) }
